@@ -36,6 +36,7 @@ type Gen struct {
 	modsets    map[*ssa.Function]*ModSet
 	contracts  map[string]*Contract
 	globalsDecl map[string]*GlobalDecl
+	fieldsDecl  map[string]*FieldDecl
 	specText   string
 	abstracted map[string]int // what was havocked, for evidence
 	compSorts  map[string]string
